@@ -27,26 +27,35 @@ abbrev Id := Nat
 structure View where
   chain : List Id
   window : Nat := 0
+  /-- blocks the repository still knows that are NOT on the best chain (side branches, e.g. the
+      old tip after a reorg): (id, height, parent id). `branches.Find` finds them. -/
+  side : List (Id × Nat × Id) := []
 deriving Repr, DecidableEq
 
 /-- `headers.LastHash()` -/
 def View.lastHash (v : View) : Option Id := v.chain.getLast?
 
-/-- `headers.HashHeight(hash)`; `none` is the Go `-1`. -/
-def View.hashHeight (v : View) (x : Id) : Option Nat :=
-  if v.chain.idxOf x < v.chain.length then some (v.chain.idxOf x) else none
+def View.sideRec (v : View) (x : Id) : Option (Nat × Id) :=
+  (v.side.find? (fun r => r.1 == x)).map (·.2)
 
-/-- `headers.Hash(ctx, height)`; `none` is the error return (height beyond the tip). Pruned
-    heights are read back from storage, so the window does not matter here. -/
+/-- `headers.HashHeight(hash)`; `none` is the Go `-1`. The lookup covers every branch held. -/
+def View.hashHeight (v : View) (x : Id) : Option Nat :=
+  if v.chain.idxOf x < v.chain.length then some (v.chain.idxOf x) else (v.sideRec x).map (·.1)
+
+/-- `headers.Hash(ctx, height)`: the BEST-CHAIN block at the height; `none` is the error return
+    (height beyond the tip). Pruned heights are read back from storage, so the window does not
+    matter here. -/
 def View.hashAt (v : View) (h : Nat) : Option Id := v.chain[h]?
 
 /-- `headers.PreviousHash(hash)`: nil when the hash is unknown, when it is the first block, or
-    when the predecessor is no longer in memory. -/
+    when the predecessor is no longer in memory. For a block on a side branch it is that block's
+    own predecessor (side branches are kept in memory down to their fork point). -/
 def View.previousHash (v : View) (x : Id) : Option Id :=
-  match v.hashHeight x with
-  | none => none
-  | some 0 => none
-  | some (h + 1) => if h < v.window then none else v.chain[h]?
+  if v.chain.idxOf x < v.chain.length then
+    match v.chain.idxOf x with
+    | 0 => none
+    | h + 1 => if h < v.window then none else v.chain[h]?
+  else (v.sideRec x).map (·.2)
 
 /-- a Go integer comparison whose operator is an extracted fact. -/
 def cmpOp (op : String) (a b : Nat) : Bool :=
@@ -128,6 +137,67 @@ def plan (v : View) (proc : Id → Bool) (start : Nat) : Option (List (Id × Nat
   | .plan l h0 => some (withHeights l h0)
   | _ => none
 
+/-! ### the same walk-back when the header repository changes BETWEEN the round's own reads
+
+Every call of the header repository is a separate lock acquisition, so new headers or a reorg can
+land between any two of them. `Env` gives the view that is current when a call is made, as a
+function of the calls made so far in this round (an adversary may use the whole history; "after
+the k-th call of kind c, switch to view v'" is one instance). `planResE` issues the calls in
+exactly the order of the Go source. -/
+
+inductive Call | lastHash | hashHeight | previousHash | hash | height
+deriving Repr, DecidableEq
+
+abbrev Env := List Call → View
+
+/-- the walk-back loop, one environment read per repository call. -/
+def walkE (E : Env) (proc : Id → Bool) (start : Nat) :
+    Nat → List Call → Id → Nat → List Id → PlanRes × List Call
+  | 0, hist, _, _, _ => (.fuelOut, hist)
+  | fuel + 1, hist, hash, height, acc =>
+    if cmpOp Facts.syncWalkStopOp height start then (.plan acc height, hist)
+    else
+      -- previousHash, _ := m.headers.PreviousHash(hash)
+      match (E hist).previousHash hash with
+      | some prev =>
+        let hist := hist ++ [.previousHash]
+        if proc prev then (.plan acc height, hist)
+        else walkE E proc start fuel hist prev (height - 1) (prev :: acc)
+      | none =>
+        let hist := hist ++ [.previousHash]
+        -- currentHash, err := m.headers.Hash(ctx, height)
+        match (E hist).hashAt height with
+        | none => (.lost, hist ++ [.hash])
+        | some cur =>
+          let hist := hist ++ [.hash]
+          if cur ≠ hash then (.lost, hist)
+          else
+            -- previousHash, err = m.headers.Hash(ctx, height-1)
+            match (E hist).hashAt (height - 1) with
+            | none => (.errPrevHash, hist ++ [.hash])
+            | some prev =>
+              let hist := hist ++ [.hash]
+              if proc prev then (.plan acc height, hist)
+              else walkE E proc start fuel hist prev (height - 1) (prev :: acc)
+
+/-- the first half of `synchronizeBlocks`, one environment read per repository call:
+    `LastHash()`, then `HashHeight(lashHash)` (the extracted `Facts.syncLastHeightExpr`), … -/
+def planResE (E : Env) (proc : Id → Bool) (start : Nat) : PlanRes × List Call :=
+  match (E []).lastHash with
+  | none => (.noTip, [.lastHash])
+  | some last =>
+    match (E [.lastHash]).hashHeight last with
+    | none => (.noTip, [.lastHash, .hashHeight])
+    | some lastHeight =>
+      let hist := [.lastHash, .hashHeight]
+      if cmpOp Facts.syncStartGuardOp lastHeight start then (.belowStart, hist)
+      else if proc last then (.inSync, hist)
+      else walkE E proc start (lastHeight + 1) hist last lastHeight [last]
+
+/-- "right after the k-th call of kind `c` returns, the repository changes from `v` to `v'`". -/
+def injectEnv (v v' : View) (c : Call) (k : Nat) : Env :=
+  fun hist => if k ≥ 1 ∧ (hist.filter (· == c)).length ≥ k then v' else v
+
 /-! ### the request loop -/
 
 /-- the loop is inside `select`, waiting on the request for `hash`. -/
@@ -194,6 +264,12 @@ def startRoundWith (s : S) : PlanRes → S
 
 /-- start of a round: the walk-back, then the first `AddRequest`. -/
 def startRound (s : S) : S := startRoundWith s (planRes s.view s.isProcessed s.start)
+
+/-- start of a round under a changing repository: plan with one read per call; the view that is
+    current after the last read is what the request loop starts with. -/
+def startRoundE (s : S) (E : Env) : S :=
+  let r := planResE E s.isProcessed s.start
+  startRoundWith { s with view := E r.2 } r.1
 
 inductive Ev
   | setView (v : View)   -- environment: new headers, reorg, prune — any change at all
